@@ -94,10 +94,12 @@ func (t *TcpConn) Close() error {
 		// log.Errorf("TcpConn: connection %v is already closed", t.node)
 		return nil
 	}
-	if tconn, ok := t.conn.(*net.TCPConn); ok {
-		tconn.CloseRead()
-	}
+	// The receive side is NOT shut down here: once our FIN is out (finally), data arriving on a socket whose
+	// receive side is shut makes the kernel reset the connection, which destroys the part of the flushed
+	// backlog it has not transmitted yet. The reader is woken by a read deadline in the past instead
+	// (it arms its own deadline first and then looks at done, see readPacket).
 	close(t.done)
+	t.conn.SetReadDeadline(time.Now())
 	t.notifyErr(NewError(ErrConnForceClose, t))
 	t.finally() // 阻塞等待投递剩余的消息
 	return nil
@@ -190,6 +192,9 @@ func (t *TcpConn) writePump() {
 func (t *TcpConn) readPacket() (fatchoy.IPacket, error) {
 	var deadline = time.Now().Add(time.Duration(TConnReadTimeout) * time.Second)
 	t.conn.SetReadDeadline(deadline)
+	if t.testShouldExit() { // after arming: a graceful Close closes done first, then sets a deadline in the past
+		return nil, ErrConnIsClosing
+	}
 	head, body, err := t.enc.ReadHeadBody(t.reader)
 	if err != nil {
 		return nil, err
